@@ -27,9 +27,9 @@ ASSUMPTIONS = [
     "a real call that does not return within the alarm (20 s; 2 s once the captured arguments of _n_to_assign_annotators "
     "already show sum(n_max_chosen) < batch_size) is recorded as non-termination",
     "n_annotators_per_sample >= 1 (ints are validated by the code, arrays are generated that way)",
-    "theorems are over an exact linear ordered field: the forced top value max+1 exceeds max and rank + u with u in [0,1) stays "
-    "below rank + 1 (IEEE rounding / overflow corners of these two additions are executed faithfully by the driver at Float "
-    "but are outside the theorems); rand_argmax noise is assumed strictly positive (2^-53 corner, see C18)",
+    "theorems are over an exact linear ordered field: rank + u with u in [0,1) stays below rank + 1 (the IEEE rounding corner "
+    "of this addition is executed faithfully by the driver at Float but is outside the theorems); no arithmetic on the inner "
+    "utilities is involved since repair 79ce7853; rand_argmax noise is assumed strictly positive (2^-53 corner, see C18)",
     "the wrapped single-annotator strategy obeys its own contract (distinct picks, non-NaN utility at each pick); cases where "
     "it does not are counted and left to C01/C02",
 ]
@@ -44,8 +44,8 @@ SHORT_ALARM_S = 2
 
 # availability matrix with an all-False row, batch_size=1: _n_to_assign_annotators did not terminate before repair
 # 6c5fda89 when the inner strategy picks sample 0 (kept as a regression case)
-# TypiClust returns -inf utilities (also at its picks): the wrapper then fails to rank the chosen sample first and
-# returns the pair (0, 0) twice while (1, 0), (1, 1) are still available
+# TypiClust returns -inf utilities (also at its picks): before repair 79ce7853 the wrapper then failed to rank the chosen
+# sample first and returned the pair (0, 0) twice while (1, 0), (1, 1) were still available (kept as a regression case)
 NEG_INF_INNER = dict(
     X=[[-1.75, 1.0], [2.0, -0.5], [1.5, 1.5], [-2.0, 0.0], [2.0, -0.5], [-1.25, 1.75]],
     y=[[0, None], [1, None], [None, None], [None, None], [None, None], [None, None]], cmode="idx", amode="none",
@@ -577,9 +577,7 @@ def oracle(ctx, cls, prob, res, inner_name=None, selectable_only=False):
         c = res["inner_samples"]
         pref, pclass = documented_pref(prob["naps"], len(c))
         nmax = [sum(1 for (s, j) in pairs if s == cs) for cs in c]
-        if res.get("inner_inf"):
-            ctx.count("naps_oracle_skipped_infinite_inner_utility")
-        elif all(n >= p for n, p in zip(nmax, pref)) and sum(pref) >= k:
+        if all(n >= p for n, p in zip(nmax, pref)) and sum(pref) >= k:
             ctx.count("naps_oracle_applicable_" + pclass)
             left = k
             exp = {}
@@ -602,8 +600,8 @@ def oracle(ctx, cls, prob, res, inner_name=None, selectable_only=False):
                     f"n_annotators_per_sample={prob['naps']} -> documented preference {pref})",
                 )
     if bad and cls == "SingleAnnotatorWrapper" and res.get("inner_inf"):
-        # the inner strategy's utility at one of its picks is +-inf: `np.nanmax(row) + 1` is then not above the row
-        # and the chosen sample is not forced to the top rank (one root cause, several symptoms)
+        # the inner strategy's utility at one of its picks is +-inf: before repair 79ce7853 `np.nanmax(row) + 1` was then
+        # not above the row and the chosen sample was not forced to the top rank (one root cause, several symptoms)
         ctx.violate(
             "C07/SingleAnnotatorWrapper._get_order_preserving_s_query/chosen-sample-not-top/inner-utilities-infinite",
             f"{cls}.query ({inner_name}) with infinite inner utilities at the picks: {bad[1]}",
@@ -847,7 +845,7 @@ def correspond(ctx):
     # sample 0 has no available annotator; RandomSampling(random_state=0) picks it first
     for seed in (0, 2):
         wrapper_case(ctx, lines, expect, dict(MINIMAL_DIVERGENCE, seed=seed), "RandomSampling")
-    # inner strategy with -inf utilities at its picks (run every time so the finding is seed independent)
+    # inner strategy with -inf utilities at its picks (regression case, run every time)
     wrapper_case(ctx, lines, expect, dict(NEG_INF_INNER), "TypiClust")
     if ctx.thorough:
         # control with the full 20 s alarm and no early re-arm
